@@ -39,6 +39,9 @@ type c01Sc struct {
 	// AutoReload: the engines' loader reports modification times and auto-reload is on, so a template that came from the
 	// loader follows later edits of the loader's copy (valid or not); a registered template does not
 	AutoReload bool `json:"auto_reload,omitempty"`
+	// FS2: the engines load through one FileSystemLoader with two search paths on the simulated disk; the second path
+	// has other content under every name and a few names of its own
+	FS2 bool `json:"fs_two_paths,omitempty"`
 }
 
 type propC01 struct{}
@@ -76,6 +79,7 @@ func (propC01) Gen(seed uint64, ex map[string]bool) interface{} {
 	sc.Engines = r.Range(1, 3)
 	sc.RegOnly = r.P(40)
 	sc.AutoReload = r.P(25)
+	sc.FS2 = !sc.AutoReload && r.P(15)
 	np := r.Range(1, 3)
 	maxOps := 40
 	if ex["tier:thorough"] {
@@ -87,6 +91,14 @@ func (propC01) Gen(seed uint64, ex map[string]bool) interface{} {
 		f := Feat{Spies: true, MapLoops: true, Include: r.P(70), Inherit: r.P(50), Macros: r.P(50), ErrorsPct: 20, Dashes: true, Sandbox: true, SpyPrefix: fmt.Sprintf("p%d_", i), RelPaths: r.P(25)}
 		sc.Progs = append(sc.Progs, genProgram(r, f))
 	}
+	for _, pr := range sc.Progs {
+		for _, src := range pr.Sources() {
+			if strings.Contains(src, "./") {
+				// a directory aliases spellings (./x, x) that are different names for the replica's in-memory loader
+				sc.FS2 = false
+			}
+		}
+	}
 	nops := r.Range(5, maxOps)
 	reg := map[[2]int]bool{}
 	for i := 0; i < nops; i++ {
@@ -94,7 +106,7 @@ func (propC01) Gen(seed uint64, ex map[string]bool) interface{} {
 		switch c := r.N(28); {
 		case c < 4 || (!reg[[2]int{e, p}] && r.P(90)):
 			k := "reg"
-			if sc.AutoReload && r.P(60) {
+			if (sc.AutoReload || sc.FS2) && r.P(60) {
 				k = "lonly" // auto-reload histories: most programs come from the loader, so that later edits matter
 			}
 			sc.Ops = append(sc.Ops, c01Op{K: k, E: e, P: p})
@@ -209,6 +221,18 @@ func (l *c01TSLoader) GetModifiedTime(name string) (int64, error) {
 	return 0, fmt.Errorf("%w: %s", twig.ErrTemplateNotFound, name)
 }
 
+// c01FSLoader: templates live in directory p1 of the simulated disk; p2 shadows every name with other content.
+type c01FSLoader struct {
+	*twig.FileSystemLoader
+	w      *simrt.World
+	p1, p2 string // this engine's two directories
+}
+
+func (l *c01FSLoader) SetTemplate(name, src string) {
+	l.w.FSWrite(l.p1+"/"+name+".twig", []byte(src), l.w.NowNS())
+	l.w.FSWrite(l.p2+"/"+name+".twig", []byte("P2-SHADOW "+name), l.w.NowNS())
+}
+
 func newC01Engine(autoReload bool) *c01Engine {
 	ce := &c01Engine{cur: map[string]string{}, base: map[*twig.Template]string{}, hub: &spyHub{per: []*Spies{newSpies()}}}
 	ce.e = twig.New()
@@ -268,10 +292,23 @@ func (propC01) Run(scI interface{}) (o *Outcome) {
 	twig.SetDebugWriter(io.Discard)
 	savedGlobals := twig.VerifSwapGlobals(nil) // every run starts from empty process-wide caches
 	defer twig.VerifSwapGlobals(savedGlobals)
+	if sc.FS2 {
+		w.UseSimFS()
+	}
 	start := w.NowNS()
 	engs := make([]*c01Engine, sc.Engines)
 	for i := range engs {
 		engs[i] = newC01Engine(sc.AutoReload)
+		if sc.FS2 {
+			// (a second loader in front of the in-memory one; the in-memory one stays empty in this flavour)
+			p1, p2 := fmt.Sprintf("e%d_p1", i), fmt.Sprintf("e%d_p2", i)
+			fl := &c01FSLoader{FileSystemLoader: twig.NewFileSystemLoader([]string{p1, p2}), w: w, p1: p1, p2: p2}
+			w.FSWrite(p2+"/p2only.twig", []byte("only in the second path"), w.NowNS())
+			engs[i].e = twig.New()
+			engs[i].loader = fl
+			engs[i].e.RegisterLoader(fl)
+			installSpies(engs[i].e, engs[i].hub)
+		}
 	}
 	fail := func(or, sig, detail string) *Outcome {
 		o.Viol = &Violation{Oracle: or, Sig: sig, Detail: detail}
@@ -336,6 +373,10 @@ func (propC01) Run(scI interface{}) (o *Outcome) {
 				}
 			}
 		case "lmiss":
+			if sc.FS2 {
+				ce.e.Load("p2only") // a load that the SECOND search path serves
+				ce.cur["p2only"] = "only in the second path"
+			}
 			if old, cached := twig.VerifCached(ce.e)[op.Name]; !cached {
 				ce.cur[op.Name] = op.Src
 				ce.loader.SetTemplate(op.Name, op.Src)
